@@ -68,7 +68,7 @@ fn plan(ctx: &mut CheckCtx, k: f64) {
             ctx.run::<s1l_bigfilters::S1L>(n(600));
         }
         "C13" => {
-            ctx.required_probes = vec!["cluster_wrap", "cluster_ge3_runs", "insert_head_of_run", "insert_middle_of_run", "insert_tail_of_run", "table_full"];
+            ctx.required_probes = vec!["cluster_wrap", "cluster_ge3_runs", "insert_head_of_run", "insert_middle_of_run", "insert_tail_of_run", "table_full", "complete_fingerprint_universe"];
             ctx.run::<s1_filters::S1>(n(300_000));
             ctx.run::<s1l_bigfilters::S1L>(n(600));
             ctx.run::<s9_entrypoints::S9>(n(5_000));
